@@ -418,7 +418,8 @@ LPick(doc, cands, segs, i, strict) ==
            IN IF r1 # 0 THEN r1
               ELSE IF vars = {} THEN 0 ELSE LPick(doc, vars, segs, i + 1, strict)
 
-(* What FindRoute matches is not the wire path (wirePath = FALSE, the code as it is):     *)
+(* What FindRoute matched was not the wire path (wirePath = FALSE, the code before the    *)
+(* repairs efc0e5c and f36c066; TRUE = the code as it is now):                           *)
 (*  - with declared servers it is the URL string cut at the first "?" only, so a fragment *)
 (*    that follows the path directly stays glued to the last segment;                     *)
 (*  - without servers it is net/url's decoded Path, split at "/" again: encoded slashes   *)
@@ -451,8 +452,10 @@ LegacyObs(doc, req, nonEmptyVars, keepSlash, methodGuard, wirePath) ==
 
 (* the models of the code as it is now: the switches of repaired defects are on                 *)
 (*   legacy methodGuard (F-C09-3, unknown-method panic) and mux localServers (F-C09-5, path-level *)
-(*   servers leak) were repaired by fix: commits in /repo                                         *)
-CurLegacyObs(doc, req) == LegacyObs(doc, req, FALSE, FALSE, TRUE, FALSE)
+(*   servers leak) were repaired by fix: commits in /repo; so was legacy wirePath (F-C09-7: the   *)
+(*   fragment is cut off like the query, F-C09-8: the escaped path is matched also without        *)
+(*   servers).  The old behaviours stay expressible through the switches (FALSE).                 *)
+CurLegacyObs(doc, req) == LegacyObs(doc, req, FALSE, FALSE, TRUE, TRUE)
 CurMuxObs(doc, req) == MuxObs(doc, req, FALSE, TRUE)
 
 (* what of an observation the L2 models predict (the rest is left to L1) *)
